@@ -259,13 +259,14 @@ def _run_sync(ops: List[str]) -> Optional[str]:
             if before in ("running", "done", "error") and (_snapshot_state(it) != pre or len(CTL["log"]) != nlog):
                 return f"start() in status {before} is not idempotent: {pre} -> {_snapshot_state(it)}"
         elif op in SENDS:
+            qlen = len(it._event_queue)     # (a transition aborted by HALF can leave the completion of a re-armed service queued)
             try:
                 it.send(WIRE.get(op, op))
             except XStateMachineError:
                 if op != "HALF":
                     raise
             if before != "running":
-                if _snapshot_state(it) != pre or len(CTL["log"]) != nlog or len(it._event_queue) != 0:
+                if _snapshot_state(it) != pre or len(CTL["log"]) != nlog or len(it._event_queue) != qlen:
                     return f"send({op}) in status {before} had an effect: {pre} -> {_snapshot_state(it)}, queue {len(it._event_queue)}"
         elif op == "STOP":
             everyone.extend(_descendants(it))
